@@ -872,8 +872,13 @@ ANIreadann(int32 ann_id, /* IN: annotation id (handle) */
             HE_REPORT_GOTO("Failed to go past tag/ref", FAIL);
     }
 
-    /* read its annotation now..*/
-    if ((int32)FAIL == Hread(aid, ann_len, ann))
+    /* no room at all (not even for a label's terminator) */
+    if (ann_len < 0)
+        HE_REPORT_GOTO("No space provided for annotation", FAIL);
+
+    /* read its annotation now..
+     * (a length of 0 must not be handed to Hread: there it means "read to the end of the element") */
+    if (ann_len > 0 && (int32)FAIL == Hread(aid, ann_len, ann))
         HE_REPORT_GOTO("Failed to read annotation", FAIL);
 
     /* If Label need to NULL terminate string */
